@@ -55,7 +55,7 @@ def decide_and_write(prop, pdef, tier, seed, results, wall, scratch):
                 # unmapped clause (post:?): attribute to the function's props
                 fk = f.get('fn')
                 props = r.get('fns', {}).get(fk, {}).get('props', []) if fk else []
-            if prop in props:
+            if prop in props or f.get('all_props'):
                 failures.append(dict(f, unit=r['unit'], engine=r['engine']))
         if involved or r.get('undecided'):
             trusted.update(r.get('trusted', []))
